@@ -94,3 +94,26 @@ Proof. exact apply_condition_a. Qed.
 Theorem C01_step_guard_complete : forall vk K fl st cva,
   aguard vk K fl (acore_of st) cva = true -> exists st', apply_condition vk K fl st cva = Ok st'.
 Proof. exact apply_condition_ok. Qed.
+
+(* S3 complete for accept/reject: the rules, fully declaratively.  A generator output is accepted
+   exactly when it parses (list/terminator/argument rules, Syntax.v) into spends ps such that
+   - no coin id occurs twice; at most 6000 spends under LIMIT_SPENDS;
+   - the table cost (spend cost + per-condition cost + SOFTFORK arguments) is within the limit;
+   - the reserved fees sum to less than 2^64;
+   - every spend obeys the local rules: self-assertions equal the coin's attributes, keys are valid and
+     not infinity and AGG_SIG_UNSAFE messages pass the suffix ban, message modes are valid, no two
+     outputs with the same (puzzle hash, amount), every relative "after" bound below every relative
+     "before" bound, birth assertions all equal, at most 1024 announcement-class conditions before the fork;
+   - the bundle rules hold (value conservation, absolute locks, cross-spend assertions matched). *)
+From ChiaV.Cond Require Import Local LocalRules Declarative.
+Theorem C01_accept_iff_rules : forall vk H K fl V t max_cost clvm_cost,
+  (exists r, parse_spends vk H K fl V t max_cost clvm_cost = Ok r) <->
+  exists ps,
+    tree_syntax fl t = Ok ps /\
+    NoDup (map (pid H) ps) /\
+    (f_limit_spends fl = true -> N.of_nat (length ps) <= MAX_SPENDS_PER_BLOCK) /\
+    total_cost fl ps <= max_cost /\
+    tot_fee ps < 2 ^ 64 /\
+    Forall (LocalRules vk K fl H) ps /\
+    BundleRules H ps.
+Proof. exact accept_iff_rules. Qed.
